@@ -191,6 +191,13 @@ def havoc_modified(engine, st, stmt, names, paths):
         if not touched:
             continue
         cont = dict.__getitem__(st.heap, cid)
+        if isinstance(cont, V) and isinstance(cont.t, Ty.List):
+            val = engine.elem(cont, key)
+            ref = engine.alloc(st, val)
+            st.heap.add_view(ref.id, cid, key)
+            for n in vnames:
+                st.vars[n] = ref
+            continue
         if not (isinstance(cont, V) and isinstance(cont.t, (Ty.Map, Ty.ODict))):
             continue
         mp = cont if isinstance(cont.t, Ty.Map) else V(cont.t.map_t, cont.c[len(cont.t.keys_t.sorts()):])
